@@ -105,7 +105,12 @@ def Z5c(n=3, m=1, buf=1, mx=2):  # the longer stream of a two-port process is pr
                 procs=[src("s1", items(n, "a")), cmd("a", ["in"]), src("s2", items(m, "b")), cmd("j", ["x", "y"])],
                 edges=[E("s1.out", "a.in"), E("a.out", "j.x"), E("s2.out", "j.y")])
 
-ZOO = dict(Z17=Z17, Z18=Z18, Z19=Z19, Z5c=Z5c, Z1=Z1, Z2=Z2, Z3=Z3, Z4=Z4, Z5=Z5, Z6=Z6, Z7=Z7, Z8=Z8, Z9=Z9, Z10=Z10, Z13=Z13, Z14=Z14,
+def Z20(n=6, buf=2, mx=2):     # a process stops reading early (port z closes after one item) while ONE upstream keeps feeding two of its other ports
+    return dict(name="Z20", max=mx, bufsize=buf,
+                procs=[src("s1", items(n, "a")), cmd("sp", ["in"], ["o1", "o2"]), src("s2", items(1, "b")), cmd("j", ["x", "y", "z"])],
+                edges=[E("s1.out", "sp.in"), E("sp.o1", "j.x"), E("sp.o2", "j.y"), E("s2.out", "j.z")])
+
+ZOO = dict(Z20=Z20, Z17=Z17, Z18=Z18, Z19=Z19, Z5c=Z5c, Z1=Z1, Z2=Z2, Z3=Z3, Z4=Z4, Z5=Z5, Z6=Z6, Z7=Z7, Z8=Z8, Z9=Z9, Z10=Z10, Z13=Z13, Z14=Z14,
            Z15=Z15, Z16=Z16, Z5b=Z5b)
 
 # ----------------------------------------------------------------------------
